@@ -57,8 +57,8 @@ func errorExit(b *ssa.BasicBlock) bool {
 	return false
 }
 
-func valueRejectionSites(p *Program) map[string]string {
-	out := map[string]string{}
+func valueRejectionSites(p *Program) map[string][]string {
+	out := map[string][]string{}
 	var fns []*ssa.Function
 	// code reached by the commands of the oracle table: a command added after the table was
 	// written brings its own validation, which the inventory cannot judge
@@ -130,18 +130,24 @@ func valueRejectionSites(p *Program) map[string]string {
 				kind = "len"
 			}
 			onTrue := errorExit(b.Succs[0])
-			key := fmt.Sprintf("%s: %s %s %d rejects=%v", fnName(f), map[string]string{"x": kind, "y": "const"}[side], cmp.Op, k, onTrue)
+			// the shape of the comparison, written with the value on the left: moving a check
+			// into a helper, or writing `1 > n` for `n < 1`, is the same refusal
+			op := cmp.Op
 			if side == "y" {
-				key = fmt.Sprintf("%s: %d %s %s rejects=%v", fnName(f), k, cmp.Op, kind, onTrue)
+				op = map[token.Token]token.Token{token.LSS: token.GTR, token.LEQ: token.GEQ, token.GTR: token.LSS, token.GEQ: token.LEQ}[op]
 			}
-			out[key] = p.instrPos(iff)
+			if !onTrue {
+				op = map[token.Token]token.Token{token.LSS: token.GEQ, token.LEQ: token.GTR, token.GTR: token.LEQ, token.GEQ: token.LSS}[op]
+			}
+			key := fmt.Sprintf("%s %s %d is refused", kind, op, k)
+			out[key] = append(out[key], fnName(f)+" "+p.instrPos(iff))
 		})
 	}
 	return out
 }
 
 func ruleValueRejections(c *Ctx, rid string) {
-	c.rule(rid, "inventory of value-conditioned rejections: every comparison of an integer (a decoded argument, a count, the length of a payload) with a constant, in the executors, the argument readers and the numeric accessors, one side of which returns an error, is listed in /verif/tables/value_rejections.json (each confirmed by reading to refuse only values Redis refuses too); a comparison not in the table refuses values a client may legitimately send")
+	c.rule(rid, "inventory of value-conditioned rejections: every comparison of an integer (a decoded argument, a count, the length of a payload) with a constant, in the executors, the argument readers and the numeric accessors, one side of which returns an error, has a shape (kind of value, direction, constant — wherever the check is written) listed in /verif/tables/value_rejections.json (each confirmed by reading to refuse only values Redis refuses too); a comparison not in the table refuses values a client may legitimately send")
 	table := map[string]string{}
 	if b, err := os.ReadFile(filepath.Join(verifRoot, "tables", "value_rejections.json")); err == nil {
 		_ = json.Unmarshal(b, &table)
@@ -153,11 +159,13 @@ func ruleValueRejections(c *Ctx, rid string) {
 	sites := valueRejectionSites(c.P)
 	n := 0
 	for _, k := range sortedKeys(sites) {
-		n++
+		sort.Strings(sites[k])
+		n += len(sites[k])
+		where := strings.Join(sites[k], "; ")
 		if _, ok := table[k]; ok {
-			c.ok(rid, "value-rejection/"+k, sites[k], "listed: "+table[k])
+			c.ok(rid, "value-rejection/"+k, "", fmt.Sprintf("listed (%s): at %s", table[k], where))
 		} else {
-			c.bad(rid, "value-rejection/"+k, sites[k], "a rejection conditioned on the size of a well-formed value that the inventory does not list: values on the refused side no longer reach the handler (or are no longer decoded)")
+			c.bad(rid, "value-rejection/"+k, "", "a rejection conditioned on the size of a well-formed value, of a shape the inventory does not list: values on the refused side no longer reach the handler (or are no longer decoded): at "+where)
 		}
 	}
 	var gone []string
@@ -177,6 +185,6 @@ func ruleValueRejections(c *Ctx, rid string) {
 func dumpValueRejections(p *Program) {
 	sites := valueRejectionSites(p)
 	for _, k := range sortedKeys(sites) {
-		fmt.Printf("%s\t%s\n", k, sites[k])
+		fmt.Printf("%s\t%s\n", k, strings.Join(sites[k], "; "))
 	}
 }
